@@ -30,8 +30,8 @@ class GlueEngine:
         n = self.tb["instr_rows"] + 8
         m = self.tb["opd_rows"] + 4
         u = {
-            "__CPROVER_file_local_assemblyline_c_asm_build_index_tables.0": n,
-            "__CPROVER_file_local_assemblyline_c_asm_build_index_tables.1": m,
+            # (every loop of the index build gets the larger table's bound, also loops a changed tree may add)
+            **{"__CPROVER_file_local_assemblyline_c_asm_build_index_tables.%d" % k: max(n, m) for k in range(6)},
             # inner copy loop (<= 11 bytes per NOP) / outer loop over NOPs of one padding run
             "nop_padding.0": 13, "nop_padding.1": 4,
             "glue_fill.0": 600,
@@ -41,7 +41,7 @@ class GlueEngine:
 
     def run(self, name, cfile, defs=(), unwind=8, unwindset=None, checks="default", common=("glue.c", "vf_main.c", "libc_models.c"),
             replace=None, malloc_may_fail=False, exclude=None, only=None, extra_flags=(), timeout=None, replay=True,
-            native_extra=(), replay_fn=None, ignore_props=(), remove_bodies=(), hunt=None):
+            native_extra=(), replay_fn=None, ignore_props=(), remove_bodies=(), hunt=None, isr=None):
         res = {"name": name, "text": cfile + " " + " ".join(defs), "status": None, "wall": 0.0, "failed": [], "detail": "",
                "inputs": None, "replay": None}
         defs = list(defs)
@@ -54,7 +54,7 @@ class GlueEngine:
         try:
             commons = [core.build_common(self.wd, tag + "_common", list(common), defs=defs)]
             rc = (STUBS if self.stubs else []) if replace is None else replace
-            gb = core.compile_harness(self.wd, tag, src, self.lib + commons, defs=defs, replace_calls=rc, remove_bodies=remove_bodies)
+            gb = core.compile_harness(self.wd, tag, src, self.lib + commons, defs=defs, replace_calls=rc, remove_bodies=remove_bodies, isr=isr)
         except core.MachineryError as e:
             res["status"] = "machinery"
             res["detail"] = str(e)[-1500:]
@@ -93,20 +93,16 @@ class GlueEngine:
             for k in hu:
                 if hu[k] > hunt["cap"] and k not in harness_loops and not any(x in k for x in hunt.get("keep", ())):
                     hu[k] = hunt["cap"]
-            hv = core.run_cbmc(gb, unwind=min(unwind or hunt["cap"], hunt["cap"]), unwindset=hu, timeout=hunt.get("timeout", 120), checks=checks,
-                               malloc_may_fail=malloc_may_fail, flags=flags, unwinding_assertions=False, trace=True)
-            if hv.status == "ok":
-                hwit = [p for p in hv.props if hv.props[p][1].startswith("WITNESS")]
-                hbad = [p for p in hv.failed if p not in hwit and not any(re.search(ig, p + " " + hv.props[p][1]) for ig in ignore_props)]
-                for p0 in hbad[:2]:
-                    if p0 not in hv.traces:
-                        continue
-                    rin = hv.traces[p0]
-                    rp = replay_fn(self, tag, cfile, defs, rin, res) if replay_fn is not None else self.replay(tag, cfile, defs, rin, common, native_extra)
-                    if rp["reproduced"]:
-                        res.update(inputs=rin, replay=rp, status="violated", failed=[(p0, hv.props[p0][1])], wall=time.time() - t0,
-                                   detail="found by the bug-hunting pre-pass (shallow unwinding), replayed natively")
-                        return res
+            hit = core.run_cbmc_hunt(gb, min(unwind or hunt["cap"], hunt["cap"]), hu, checks=checks, flags=flags,
+                                     timeout=hunt.get("timeout", 120), malloc_may_fail=malloc_may_fail)
+            if hit is not None and not hit[1].startswith("WITNESS") and \
+                    not any(re.search(ig, (hit[0] or "") + " " + hit[1]) for ig in ignore_props):
+                rin = hit[2]
+                rp = replay_fn(self, tag, cfile, defs, rin, res) if replay_fn is not None else self.replay(tag, cfile, defs, rin, common, native_extra)
+                if rp["reproduced"]:
+                    res.update(inputs=rin, replay=rp, status="violated", failed=[(hit[0], hit[1])], wall=time.time() - t0,
+                               detail="found by the bug-hunting pre-pass (path-wise, shallow unwinding), replayed natively")
+                    return res
         v = core.run_cbmc(gb, unwind=unwind, unwindset=uw, timeout=timeout or self.timeout, checks=checks,
                           malloc_may_fail=malloc_may_fail, flags=flags)
         res["wall"] = time.time() - t0
@@ -168,7 +164,9 @@ class GlueEngine:
         args = ["%d=%d" % (k, val) for k, val in sorted(inputs.items())]
         env_rc, out, err, _, to = core.run([exe] + args, timeout=30, limit=False)
         san = "ERROR: AddressSanitizer" in err or "runtime error:" in err
-        return {"reproduced": env_rc == 1 or san, "exit": env_rc, "output": (out[-1500:] + "\n" + err[-1200:]), "args": args,
+        if to:
+            err = (err or "") + "\nREPLAY did not terminate within 30 s (non-termination)"
+        return {"reproduced": env_rc == 1 or san or bool(to), "exit": env_rc, "output": (out[-1500:] + "\n" + err[-1200:]), "args": args,
                 "text": " ".join(args), "bytes": "", "rc": env_rc, "options": None, "sanitizer": san}
 
 
